@@ -169,3 +169,7 @@ def run(ctx):
     n = 400 if ctx.tier == "quick" else 10000
     stream.run_stream(ctx, "routes", "harness.props.c04", "gen_cases", n, per_chunk=25,
                       canon_kw=dict(drop_zero=True, tables=False))
+
+
+def replay(ctx, payload):
+    return stream.replay(ctx, payload, canon_kw=dict(drop_zero=True, tables=False))
